@@ -1656,12 +1656,604 @@ Section EnergyConserved.
   Qed.
 End EnergyConserved.
 
-Lemma ps2_env_fresh_upto8 :
-  forall n T, In n [2; 3; 4; 5; 6; 7; 8]%nat -> In T (trees_of_size n) -> replay_ok T (ps2_step 1 T) = true.
+(* ------------------------------------------------------------------ two-site scheme: every environment read is up to date *)
+Section Fresh2.
+Variable T : tree.
+Hypothesis ND : NoDup (ids T).
+Variable h : Z.
+
+(* frames with separate write sets for the two kinds of environments *)
+Definition Fr2 (X Wc Wp : list nat) (s s' : cst) : Prop :=
+  (forall a, ~ In a Wc -> (forall x, In x X -> ~ In x (cone T a)) -> c_ec s' a = c_ec s a)
+  /\ (forall y, ~ In y Wp -> (forall x, In x X -> In x (cone T y)) -> c_ep s' y = c_ep s y).
+
+Lemma Fr2_refl : forall X Wc Wp s, Fr2 X Wc Wp s s.
+Proof. intros. split; reflexivity. Qed.
+Lemma Fr2_trans : forall X Wc Wp s1 s2 s3, Fr2 X Wc Wp s1 s2 -> Fr2 X Wc Wp s2 s3 -> Fr2 X Wc Wp s1 s3.
 Proof.
-  assert (H : forallb (fun n => forallb (fun T => replay_ok T (ps2_step 1 T)) (trees_of_size n)) [2; 3; 4; 5; 6; 7; 8]%nat = true)
-    by (vm_compute; reflexivity).
-  intros n T Hn HT. rewrite forallb_forall in H. specialize (H n Hn). rewrite forallb_forall in H. apply H, HT.
+  intros X Wc Wp s1 s2 s3 [A1 B1] [A2 B2]. split; intros a Ha Hx.
+  - rewrite A2, A1 by assumption. reflexivity.
+  - rewrite B2, B1 by assumption. reflexivity.
+Qed.
+Lemma Fr2_mono : forall X Wc Wp X' Wc' Wp' s s', incl X X' -> incl Wc Wc' -> incl Wp Wp' ->
+  Fr2 X Wc Wp s s' -> Fr2 X' Wc' Wp' s s'.
+Proof.
+  intros X Wc Wp X' Wc' Wp' s s' HX HC HP [A B]. split; intros a Ha Hx.
+  - apply A; [intros F; apply Ha, HC, F|intros x Hi; apply Hx, HX, Hi].
+  - apply B; [intros F; apply Ha, HP, F|intros x Hi; apply Hx, HX, Hi].
+Qed.
+Lemma Fr2_touch : forall X Wc Wp x l s, In x X -> Fr2 X Wc Wp s (set_loc l (touch T x s)).
+Proof.
+  intros X Wc Wp x l s Hin. split; intros a _ Hx; cbn [set_loc touch c_ec c_ep].
+  - rewrite memn_notin by (apply Hx, Hin). apply andb_true_r.
+  - assert (M : memn x (cone T a) = true) by (apply memn_in, Hx, Hin). rewrite M. apply andb_true_r.
+Qed.
+Lemma Fr2_setec : forall X Wc Wp c v s, In c Wc -> Fr2 X Wc Wp s (mkC (c_loc s) (upd (c_ec s) c v) (c_ep s)).
+Proof.
+  intros. split; intros a Ha _; cbn [c_ec c_ep]; [|reflexivity].
+  apply upd_other. intros F. apply Ha. rewrite F. assumption.
+Qed.
+Lemma Fr2_setep : forall X Wc Wp c v s, In c Wp -> Fr2 X Wc Wp s (mkC (c_loc s) (c_ec s) (upd (c_ep s) c v)).
+Proof.
+  intros. split; intros a Ha _; cbn [c_ec c_ep]; [reflexivity|].
+  apply upd_other. intros F. apply Ha. rewrite F. assumption.
 Qed.
 
+Lemma st_Evolve2 : forall s c p t,
+  (c_loc s = AtNode c \/ c_loc s = AtNode p) -> memn c (kids T p) = true ->
+  forallb (c_ec s) (kids T c) = true -> forallb (c_ec s) (others c (kids T p)) = true -> ep_ok T s p = true ->
+  cstep T s (Evolve2 c p t) = Some s.
+Proof.
+  intros s c p t L M A B E. cbn [cstep]. rewrite M, A, B, E.
+  destruct L as [L|L]; rewrite L, loc_eqb_refl; [reflexivity|]. rewrite orb_true_r. reflexivity.
+Qed.
+Lemma st_Split2 : forall s c p b,
+  (c_loc s = AtNode c \/ c_loc s = AtNode p) -> memn c (kids T p) = true ->
+  cstep T s (Split2 c p b) = Some (set_loc (AtNode (if b then p else c)) (touch T p (touch T c s))).
+Proof.
+  intros s c p b L M. cbn [cstep]. rewrite M.
+  destruct L as [L|L]; rewrite L, loc_eqb_refl; [reflexivity|]. rewrite orb_true_r. reflexivity.
+Qed.
+Lemma st_EnvChild_root : forall s, cstep T s (EnvChild (tid T)) = Some s.
+Proof. intros. cbn [cstep]. rewrite Nat.eqb_refl. reflexivity. Qed.
 
+(* build_parent_environ_node for all children of p, in order: every stored value is valid *)
+Lemma envparents_run : forall p todo done s,
+  kids T p = done ++ todo -> ~ In p (done ++ todo) -> ep_ok T s p = true ->
+  (forall k, In k (done ++ todo) -> c_ec s k = true) ->
+  exists s', replay T s (envparents p (length done) todo) = Some s'
+    /\ c_loc s' = c_loc s /\ (forall a, c_ec s' a = c_ec s a)
+    /\ (forall k, In k todo -> c_ep s' k = true) /\ (forall y, ~ In y todo -> c_ep s' y = c_ep s y).
+Proof.
+  intros p todo. induction todo as [|k todo IH]; intros done s K Np E A.
+  - exists s. repeat split; try reflexivity. intros k [].
+  - cbn [envparents replay].
+    assert (Nth : nth (length done) (kids T p) (S k) = k).
+    { rewrite K, app_nth2 by lia. rewrite Nat.sub_diag. reflexivity. }
+    assert (Len : (length done < length (kids T p))%nat) by (rewrite K, app_length; cbn [length]; lia).
+    rewrite (st_EnvParent T s p (length done) k Nth Len).
+    assert (V : ep_ok T s p && forallb (c_ec s) (others k (kids T p)) = true).
+    { rewrite E. cbn [andb]. apply forallb_others. rewrite K. intros x Hx _. apply A, Hx. }
+    rewrite V. set (s1 := mkC (c_loc s) (c_ec s) (upd (c_ep s) k true)).
+    assert (K1 : kids T p = (done ++ [k]) ++ todo) by (rewrite <- app_assoc; exact K).
+    assert (Np1 : ~ In p ((done ++ [k]) ++ todo)) by (rewrite <- app_assoc; exact Np).
+    assert (Npk : p <> k).
+    { intros F. apply Np. apply in_or_app. right. left. symmetry. exact F. }
+    assert (E1 : ep_ok T s1 p = true).
+    { unfold ep_ok in *. unfold s1. cbn [c_ep]. rewrite upd_other by exact Npk. exact E. }
+    assert (A1 : forall x, In x ((done ++ [k]) ++ todo) -> c_ec s1 x = true).
+    { intros x Hx. rewrite <- app_assoc in Hx. apply A, Hx. }
+    destruct (IH (done ++ [k]) s1 K1 Np1 E1 A1) as [s' [R [L [C [P Q]]]]].
+    rewrite app_length in R. cbn [length] in R. replace (length done + 1)%nat with (S (length done)) in R by lia.
+    exists s'. split; [exact R|]. split; [rewrite L; reflexivity|]. split; [intros a; rewrite C; reflexivity|]. split.
+    + intros x [X|Hx]; [|apply P, Hx]. subst x.
+      destruct (in_dec Nat.eq_dec k todo) as [I|I]; [apply P, I|].
+      rewrite Q by exact I. unfold s1. cbn [c_ep]. apply upd_same.
+    + intros y Hy. rewrite Q by (intros F; apply Hy; right; exact F).
+      unfold s1. cbn [c_ep]. apply upd_other. intros F. apply Hy. left. symmetry. exact F.
+Qed.
+
+Definition Good (n : nat) (ch : list tree) (E : list nat) (s : cst) : Prop :=
+  ep_ok T s n = true /\ forall d, In d (flat_map ids ch) -> ~ In d E -> c_ec s d = true.
+
+Lemma good_weaken : forall n ch E E' s, incl E E' -> Good n ch E s -> Good n ch E' s.
+Proof. intros n ch E E' s H [A B]. split; [exact A|]. intros d Hd Hn. apply B; [exact Hd|]. intros F. apply Hn, H, F. Qed.
+
+Definition Hoare2 (prog : bool -> tree -> list event) (t : tree) : Prop :=
+  forall r s, subt t T -> Inv T (tid t) (tch t) s ->
+    exists s', replay T s (prog r t) = Some s' /\ Inv T (tid t) (tch t) s'
+               /\ Fr2 (ids t) (ids t) (edge_ids t) s s'.
+
+Section Node.
+Variables (n : nat) (done : list tree) (c : tree) (todo : list tree).
+Let ch := done ++ c :: todo.
+Let t := Node n ch.
+Hypothesis Ht : subt t T.
+
+Let X := ids t.
+Let Wc := ids t.
+Let Wp := edge_ids t.
+Definition FrT := Fr2 X Wc Wp.
+
+Lemma c_in_ch : In c ch.
+Proof. unfold ch. apply in_or_app. right. left. reflexivity. Qed.
+Lemma n_in_X : In n X.
+Proof. left. reflexivity. Qed.
+Lemma ids_c_in_edge : forall x, In x (ids c) -> In x (flat_map ids ch).
+Proof. intros x Hx. eapply in_flat_map_ids; [apply c_in_ch|exact Hx]. Qed.
+Lemma tc_in_X : In (tid c) X.
+Proof. right. apply ids_c_in_edge, tid_in_ids. Qed.
+Lemma edge_in_X : forall x, In x (flat_map ids ch) -> In x X.
+Proof. intros x Hx. right. exact Hx. Qed.
+
+Lemma n_notin_cone_desc : forall d, In d (flat_map ids ch) -> ~ In n (cone T d).
+Proof.
+  intros d Hd F. apply (cone_edge T ND t d Ht Hd) in F. unfold edge_ids in F. cbn [t tch] in F.
+  pose proof (subt_NoDup _ _ Ht ND) as N. cbn [t ids] in N. inversion N; subst. contradiction.
+Qed.
+
+Lemma tc_notin_cone : forall d, In d (flat_map ids ch) -> d <> tid c -> ~ In (tid c) (cone T d).
+Proof.
+  intros d Hd Hne F.
+  destruct (child_facts T ND n done c todo Ht) as [Sc [Pc [Kn [Cn [Cc [Nn Nd]]]]]].
+  destruct (in_mid_cases done c todo d Hd) as [Hc|[c' [Hc' Hdc']]].
+  - rewrite ids_edge in Hc. destruct Hc as [E|Hc]; [apply Hne; symmetry; exact E|].
+    apply (cone_edge T ND c d Sc Hc) in F.
+    pose proof (subt_NoDup _ _ Sc ND) as N. rewrite ids_edge in N. inversion N; subst. contradiction.
+  - assert (Sc' : subt c' T).
+    { eapply subt_trans; [|exact Ht]. eapply subt_child; [|apply subt_refl].
+      apply in_app_or in Hc'. apply in_or_app. destruct Hc' as [H1|H1]; [left; exact H1|right; right; exact H1]. }
+    apply (cone_inside T ND c' d Sc' Hdc') in F.
+    eapply sibling_disj; [exact Nd|exact Hc'|exact F|apply tid_in_ids].
+Qed.
+
+Lemma cone_n : cone T n = ids t.
+Proof. apply (cone_subt T ND t Ht). Qed.
+Lemma kids_n : kids T n = map tid ch.
+Proof. apply (kids_subt T ND t Ht). Qed.
+
+Lemma good_touch_n : forall E s l, Good n ch E s -> Good n ch E (set_loc l (touch T n s)).
+Proof.
+  intros E s l [A B]. split.
+  - unfold ep_ok in *. rewrite ep_touch_keep; [exact A|]. rewrite cone_n. left. reflexivity.
+  - intros d Hd Hn. cbn [set_loc touch c_ec]. rewrite (B d Hd Hn).
+    rewrite memn_notin; [reflexivity|apply n_notin_cone_desc, Hd].
+Qed.
+Lemma good_touch_c : forall s l, Good n ch [tid c] s -> Good n ch [tid c] (set_loc l (touch T (tid c) s)).
+Proof.
+  intros s l [A B]. split.
+  - unfold ep_ok in *. rewrite ep_touch_keep; [exact A|]. rewrite cone_n. right. apply ids_c_in_edge, tid_in_ids.
+  - intros d Hd Hn. cbn [set_loc touch c_ec]. rewrite (B d Hd Hn).
+    rewrite memn_notin; [reflexivity|]. apply tc_notin_cone; [exact Hd|]. intros F. apply Hn. left. symmetry. exact F.
+Qed.
+Lemma good_setec_c : forall s, Good n ch [tid c] s ->
+  Good n ch [] (mkC (c_loc s) (upd (c_ec s) (tid c) true) (c_ep s)).
+Proof.
+  intros s [A B]. split; [exact A|]. intros d Hd _. cbn [c_ec].
+  destruct (Nat.eq_dec d (tid c)) as [E|E]; [subst d; apply upd_same|].
+  rewrite upd_other by exact E. apply B; [exact Hd|]. intros [F|[]]. apply E. symmetry. exact F.
+Qed.
+Lemma good_setec_n : forall E s v, Good n ch E s -> Good n ch E (mkC (c_loc s) (upd (c_ec s) n v) (c_ep s)).
+Proof.
+  intros E s v [A B]. split; [exact A|]. intros d Hd Hn. cbn [c_ec]. rewrite upd_other; [apply B; assumption|].
+  intros F. subst d. destruct (child_facts T ND n done c todo Ht) as [_ [_ [_ [_ [_ [Nn _]]]]]]. contradiction.
+Qed.
+
+Lemma n_notin_kids : ~ In n (map tid ch).
+Proof.
+  intros F. destruct (child_facts T ND n done c todo Ht) as [_ [_ [_ [_ [_ [Nn _]]]]]]. apply Nn, in_kids_edge, F.
+Qed.
+
+(* EnvChild n : a no-op at the root, otherwise rewrites only ec n *)
+Lemma run_EnvChild_n : forall E s, Good n ch E s ->
+  exists s', cstep T s (EnvChild n) = Some s' /\ c_loc s' = c_loc s /\ Good n ch E s'
+             /\ (forall y, c_ep s' y = c_ep s y) /\ (forall d, d <> n -> c_ec s' d = c_ec s d) /\ FrT s s'.
+Proof.
+  intros E s G. destruct (Nat.eqb_spec n (tid T)) as [R|R].
+  - assert (Es : cstep T s (EnvChild n) = Some s) by (rewrite R; apply st_EnvChild_root).
+    exists s. rewrite Es. split; [reflexivity|]. split; [reflexivity|]. split; [exact G|].
+    split; [reflexivity|]. split; [reflexivity|apply Fr2_refl].
+  - apply Nat.eqb_neq in R. rewrite (st_EnvChild T s n R).
+    eexists. split; [reflexivity|]. split; [reflexivity|]. split; [apply good_setec_n, G|].
+    split; [reflexivity|]. split; [intros d Hd; cbn [c_ec]; apply upd_other, Hd|].
+    apply Fr2_setec. left. reflexivity.
+Qed.
+
+(* all parent environments below n rebuilt from a Good state *)
+Lemma run_envparents_n : forall s, Good n ch [] s ->
+  exists s', replay T s (envparents n 0 (map tid ch)) = Some s' /\ c_loc s' = c_loc s /\ Good n ch [] s'
+             /\ (forall k, In k (map tid ch) -> c_ep s' k = true)
+             /\ (forall y, ~ In y (map tid ch) -> c_ep s' y = c_ep s y) /\ FrT s s'.
+Proof.
+  intros s [A B].
+  destruct (envparents_run n (map tid ch) [] s) as [s' [R [L [C [P Q]]]]].
+  - cbn [app]. apply kids_n.
+  - cbn [app]. apply n_notin_kids.
+  - exact A.
+  - cbn [app]. intros k Hk. apply B; [apply in_kids_edge, Hk|intros []].
+  - exists s'. split; [exact R|]. split; [exact L|]. split; [|split; [exact P|split; [exact Q|]]].
+    + split.
+      * unfold ep_ok in *. rewrite Q; [exact A|apply n_notin_kids].
+      * intros d Hd Hn. rewrite C. apply B; assumption.
+    + split; intros a Ha _.
+      * apply C.
+      * apply Q. intros F. apply Ha. unfold Wp, edge_ids. cbn [t tch]. apply in_kids_edge, F.
+Qed.
+
+Lemma FrT_trans : forall s1 s2 s3, FrT s1 s2 -> FrT s2 s3 -> FrT s1 s3.
+Proof. intros. eapply Fr2_trans; eassumption. Qed.
+
+Lemma facts : subt c T /\ par_ok T (Some n) c /\ ~ In n (flat_map ids ch) /\ NoDup (flat_map ids ch).
+Proof. destruct (child_facts T ND n done c todo Ht) as [Sc [Pc [_ [_ [_ [Nn Nd]]]]]]. repeat split; assumption. Qed.
+Lemma kids_c : kids T (tid c) = map tid (tch c).
+Proof. destruct facts as [Sc _]. apply (kids_subt T ND c Sc). Qed.
+Lemma cone_c : cone T (tid c) = ids c.
+Proof. destruct facts as [Sc _]. apply (cone_subt T ND c Sc). Qed.
+Lemma c_not_root : (tid c =? tid T)%nat = false.
+Proof. destruct facts as [_ [Pc _]]. apply (par_not_root T ND n c Pc). Qed.
+Lemma memn_c : memn (tid c) (kids T n) = true.
+Proof. rewrite kids_n. apply memn_in, in_map, c_in_ch. Qed.
+Lemma kc_in_edge : forall g, In g (map tid (tch c)) -> In g (flat_map ids ch) /\ g <> tid c /\ In g (edge_ids c).
+Proof.
+  intros g Hg. assert (Hg' : In g (edge_ids c)) by (unfold edge_ids; apply in_kids_edge, Hg).
+  split; [apply ids_c_in_edge; rewrite ids_edge; right; exact Hg'|]. split; [|exact Hg'].
+  intros F. subst g. destruct facts as [Sc _]. pose proof (subt_NoDup _ _ Sc ND) as N. rewrite ids_edge in N.
+  inversion N; subst. contradiction.
+Qed.
+Lemma tc_notin_kc : ~ In (tid c) (map tid (tch c)).
+Proof. intros F. destruct (kc_in_edge _ F) as [_ [H _]]. apply H. reflexivity. Qed.
+Lemma n_ne_tc : n <> tid c.
+Proof. intros F. destruct facts as [_ [_ [Nn _]]]. apply Nn. rewrite F. apply ids_c_in_edge, tid_in_ids. Qed.
+
+Lemma good_touch_c' : forall s, Good n ch [tid c] s -> Good n ch [tid c] (touch T (tid c) s).
+Proof. intros s G. exact (good_touch_c s (c_loc s) G). Qed.
+Lemma good_setep : forall E s y v, y <> n -> Good n ch E s -> Good n ch E (mkC (c_loc s) (c_ec s) (upd (c_ep s) y v)).
+Proof.
+  intros E s y v Hy [A B]. split; [|exact B]. unfold ep_ok in *. cbn [c_ep]. rewrite upd_other; [exact A|].
+  intros F. apply Hy. symmetry. exact F.
+Qed.
+Lemma good_kc : forall s, Good n ch [tid c] s -> forallb (c_ec s) (kids T (tid c)) = true.
+Proof.
+  intros s [_ B]. rewrite kids_c. apply forallb_forall. intros g Hg. destruct (kc_in_edge g Hg) as [H1 [H2 _]].
+  apply B; [exact H1|]. intros [F|[]]. apply H2. symmetry. exact F.
+Qed.
+Lemma good_others : forall s, Good n ch [tid c] s -> forallb (c_ec s) (others (tid c) (kids T n)) = true.
+Proof.
+  intros s [_ B]. apply forallb_others. rewrite kids_n. intros k Hk Hne. apply B; [apply in_kids_edge, Hk|].
+  intros [F|[]]. apply Hne. symmetry. exact F.
+Qed.
+Lemma inv_good : forall s, Inv T n ch s -> Good n ch [] s.
+Proof. intros s [_ [E A]]. split; [exact E|]. intros d Hd _. apply A, Hd. Qed.
+Lemma good_inv : forall s, c_loc s = AtNode n -> Good n ch [] s -> Inv T n ch s.
+Proof. intros s L [E A]. split; [exact L|]. split; [exact E|]. intros d Hd. apply A; [exact Hd|intros []]. Qed.
+
+(* EnvChild c rebuilt from valid children environments; EnvParent n i c from a Good state *)
+Lemma run_EnvChild_c : forall s, Good n ch [tid c] s ->
+  exists s', cstep T s (EnvChild (tid c)) = Some s' /\ c_loc s' = c_loc s /\ Good n ch [] s'
+             /\ (forall y, c_ep s' y = c_ep s y) /\ FrT s s'.
+Proof.
+  intros s G. rewrite (st_EnvChild T s (tid c) c_not_root), (good_kc s G).
+  eexists. split; [reflexivity|]. split; [reflexivity|]. split; [apply good_setec_c, G|]. split; [reflexivity|].
+  apply Fr2_setec. apply tc_in_X.
+Qed.
+Lemma run_EnvParent_c : forall s, Good n ch [] s ->
+  exists s', cstep T s (EnvParent n (length done) (tid c)) = Some s' /\ c_loc s' = c_loc s /\ Good n ch [] s'
+             /\ c_ep s' (tid c) = true /\ FrT s s'.
+Proof.
+  intros s G. destruct (index_facts T ND n done c todo Ht) as [Nth Len].
+  rewrite (st_EnvParent T s n (length done) (tid c) Nth Len).
+  assert (V : ep_ok T s n && forallb (c_ec s) (others (tid c) (kids T n)) = true).
+  { destruct G as [A B]. rewrite A. cbn [andb]. apply good_others. split; [exact A|]. intros d Hd _. apply B; [exact Hd|intros []]. }
+  rewrite V. eexists. split; [reflexivity|]. split; [reflexivity|].
+  split; [apply good_setep; [intros F; apply n_ne_tc; symmetry; exact F|exact G]|]. split; [cbn [c_ep]; apply upd_same|].
+  apply Fr2_setep. unfold Wp, edge_ids. cbn [t tch]. apply ids_c_in_edge, tid_in_ids.
+Qed.
+
+Lemma one_site_block : forall s tau, Inv T n ch s ->
+  exists s', replay T s (Evolve1 n tau :: upd_1site n (map tid ch)) = Some s' /\ Inv T n ch s' /\ FrT s s'.
+Proof.
+  intros s tau I. pose proof (inv_good s I) as G. destruct I as [L [E A]].
+  assert (K : forallb (c_ec s) (kids T n) = true).
+  { rewrite kids_n. apply forallb_forall. intros k Hk. apply A, in_kids_edge, Hk. }
+  cbn [replay]. rewrite (st_Evolve1 T s n tau L E K).
+  set (s1 := set_loc (AtNode n) (touch T n s)).
+  assert (G1 : Good n ch [] s1) by (apply good_touch_n, G).
+  destruct (run_EnvChild_n [] s1 G1) as [s2 [R2 [L2 [G2 [_ [_ F2]]]]]].
+  destruct (run_envparents_n s2 G2) as [s3 [R3 [L3 [G3 [_ [_ F3]]]]]].
+  unfold upd_1site. cbn [replay]. rewrite R2, R3.
+  exists s3. split; [reflexivity|]. split.
+  - apply good_inv; [rewrite L3, L2; reflexivity|exact G3].
+  - eapply FrT_trans; [apply Fr2_touch, n_in_X|]. eapply FrT_trans; eassumption.
+Qed.
+
+Lemma two_site_block : forall s tau b,
+  (c_loc s = AtNode (tid c) \/ c_loc s = AtNode n) -> Good n ch [tid c] s ->
+  exists s', replay T s ([Evolve2 (tid c) n tau; Split2 (tid c) n b]
+                         ++ upd_2site (tid c) (map tid (tch c)) n (map tid ch)) = Some s'
+             /\ c_loc s' = AtNode (if b then n else tid c) /\ Good n ch [] s' /\ c_ep s' (tid c) = true /\ FrT s s'.
+Proof.
+  intros s tau b L G.
+  cbn [app replay].
+  rewrite (st_Evolve2 s (tid c) n tau L memn_c (good_kc s G) (good_others s G) (proj1 G)).
+  rewrite (st_Split2 s (tid c) n b L memn_c).
+  set (s2 := set_loc (AtNode (if b then n else tid c)) (touch T n (touch T (tid c) s))).
+  assert (G2 : Good n ch [tid c] s2) by (apply good_touch_n, good_touch_c', G).
+  assert (F2 : FrT s s2).
+  { eapply FrT_trans; [apply (Fr2_touch X Wc Wp (tid c) (c_loc s) s), tc_in_X|]. apply Fr2_touch, n_in_X. }
+  destruct (run_EnvChild_c s2 G2) as [s3 [R3 [L3 [G3 [_ F3]]]]].
+  destruct (run_EnvChild_n [] s3 G3) as [s4 [R4 [L4 [G4 [_ [_ F4]]]]]].
+  destruct (run_envparents_n s4 G4) as [s5 [R5 [L5 [G5 [P5 [_ F5]]]]]].
+  assert (Ec5 : c_ep s5 (tid c) = true) by (apply P5, in_map, c_in_ch).
+  destruct (envparents_run (tid c) (map tid (tch c)) [] s5) as [s6 [R6 [L6 [C6 [_ Q6]]]]].
+  { cbn [app]. apply kids_c. }
+  { cbn [app]. apply tc_notin_kc. }
+  { unfold ep_ok. rewrite Ec5. apply orb_true_r. }
+  { cbn [app]. intros g Hg. destruct (kc_in_edge g Hg) as [H1 _]. apply (proj2 G5); [exact H1|intros []]. }
+  cbn [length] in R6.
+  unfold upd_2site. cbn [app replay]. rewrite R3, R4. rewrite replay_app, R5, R6.
+  exists s6. split; [reflexivity|]. split; [rewrite L6, L5, L4, L3; reflexivity|]. split; [|split].
+  - destruct G5 as [A5 B5]. split.
+    + unfold ep_ok in *. rewrite Q6; [exact A5|]. intros F. destruct (kc_in_edge n F) as [H1 _].
+      destruct facts as [_ [_ [Nn _]]]. contradiction.
+    + intros d Hd Hn. rewrite C6. apply B5; assumption.
+  - rewrite Q6; [exact Ec5|apply tc_notin_kc].
+  - eapply FrT_trans; [exact F2|]. eapply FrT_trans; [exact F3|]. eapply FrT_trans; [exact F4|].
+    eapply FrT_trans; [exact F5|]. split; intros a Ha _.
+    + apply C6.
+    + apply Q6. intros F. apply Ha. destruct (kc_in_edge a F) as [H1 _]. unfold Wp, edge_ids. cbn [t tch]. exact H1.
+Qed.
+
+Lemma descend2 : forall s, Inv T n ch s ->
+  exists s', replay T s (PushToChild n (length done) (tid c) ++ upd_1bond (tid c) n (length done)) = Some s'
+             /\ c_loc s' = AtNode (tid c) /\ Good n ch [] s' /\ c_ep s' (tid c) = true /\ FrT s s'.
+Proof.
+  intros s I. pose proof (inv_good s I) as G. destruct I as [L _].
+  destruct (index_facts T ND n done c todo Ht) as [Nth Len].
+  cbn [PushToChild upd_1bond app replay].
+  rewrite (st_QRDown T s n (length done) (tid c) L Nth Len).
+  set (s1 := set_loc (OnBond (tid c)) (touch T n s)).
+  rewrite (st_AbsorbDown T s1 n (length done) (tid c) eq_refl Nth Len).
+  set (s2 := set_loc (AtNode (tid c)) (touch T (tid c) s1)).
+  assert (G2 : Good n ch [tid c] s2).
+  { apply good_touch_c. eapply good_weaken; [|apply good_touch_n, G]. intros x []. }
+  destruct (run_EnvChild_c s2 G2) as [s3 [R3 [L3 [G3 [_ F3]]]]].
+  destruct (run_EnvParent_c s3 G3) as [s4 [R4 [L4 [G4 [E4 F4]]]]].
+  rewrite R3, R4. exists s4. split; [reflexivity|]. split; [rewrite L4, L3; reflexivity|]. split; [exact G4|]. split; [exact E4|].
+  eapply FrT_trans; [apply Fr2_touch, n_in_X|]. eapply FrT_trans; [apply Fr2_touch, tc_in_X|].
+  eapply FrT_trans; eassumption.
+Qed.
+
+Lemma ascend2 : forall s, c_loc s = AtNode (tid c) -> Good n ch [tid c] s ->
+  exists s', replay T s (PushToParent (tid c) n ++ upd_1bond (tid c) n (length done)) = Some s'
+             /\ Inv T n ch s' /\ FrT s s'.
+Proof.
+  intros s L G. cbn [PushToParent upd_1bond app replay].
+  rewrite (st_QRUp T s (tid c) n L memn_c).
+  set (s1 := set_loc (OnBond (tid c)) (touch T (tid c) s)).
+  rewrite (st_AbsorbUp T s1 (tid c) n eq_refl memn_c).
+  set (s2 := set_loc (AtNode n) (touch T n s1)).
+  assert (G2 : Good n ch [tid c] s2) by (apply good_touch_n, good_touch_c, G).
+  destruct (run_EnvChild_c s2 G2) as [s3 [R3 [L3 [G3 [_ F3]]]]].
+  destruct (run_EnvParent_c s3 G3) as [s4 [R4 [L4 [G4 [E4 F4]]]]].
+  rewrite R3, R4. exists s4. split; [reflexivity|]. split.
+  - apply good_inv; [rewrite L4, L3; reflexivity|exact G4].
+  - eapply FrT_trans; [apply Fr2_touch, tc_in_X|]. eapply FrT_trans; [apply Fr2_touch, n_in_X|].
+    eapply FrT_trans; eassumption.
+Qed.
+
+(* the recursive sweep of the subtree of c, seen from n *)
+Lemma rec_keep : forall s3 s4 E, incl E [tid c] -> Good n ch E s3 -> Inv T (tid c) (tch c) s4 ->
+  Fr2 (ids c) (ids c) (edge_ids c) s3 s4 -> Good n ch [tid c] s4 /\ FrT s3 s4.
+Proof.
+  intros s3 s4 E HE [A B] [_ [_ A4]] [FA FB].
+  destruct facts as [Sc [Pc [Nn Nd]]].
+  split.
+  - split.
+    + unfold ep_ok in *. rewrite FB; [exact A| |].
+      * intros F. apply Nn, ids_c_in_edge. rewrite ids_edge. right. exact F.
+      * intros x Hx. rewrite cone_n. right. apply ids_c_in_edge, Hx.
+    + intros d Hd Hn. assert (Hne : d <> tid c) by (intros F; apply Hn; left; symmetry; exact F).
+      destruct (in_mid_cases done c todo d Hd) as [Hc|[c' [Hc' Hdc']]].
+      * rewrite ids_edge in Hc. destruct Hc as [F|Hc]; [exfalso; apply Hne; symmetry; exact F|]. apply A4, Hc.
+      * assert (Sc' : subt c' T).
+        { eapply subt_trans; [|exact Ht]. eapply subt_child; [|apply subt_refl].
+          apply in_app_or in Hc'. apply in_or_app. destruct Hc' as [H1|H1]; [left; exact H1|right; right; exact H1]. }
+        rewrite FA.
+        -- apply B; [exact Hd|]. intros F. apply HE in F. destruct F as [F|[]]. apply Hne. symmetry. exact F.
+        -- eapply sibling_disj; eassumption.
+        -- intros x Hx Fx. apply (cone_inside T ND c' d Sc' Hdc') in Fx. eapply sibling_disj; eassumption.
+  - eapply Fr2_mono; [| | |split; [exact FA|exact FB]].
+    + intros x Hx. right. apply ids_c_in_edge, Hx.
+    + intros x Hx. right. apply ids_c_in_edge, Hx.
+    + intros x Hx. unfold Wp, edge_ids. cbn [t tch]. apply ids_c_in_edge. rewrite ids_edge. right. exact Hx.
+Qed.
+End Node.
+
+Lemma inv_child : forall n done c todo s,
+  c_loc s = AtNode (tid c) -> Good n (done ++ c :: todo) [] s -> c_ep s (tid c) = true -> Inv T (tid c) (tch c) s.
+Proof.
+  intros n done c todo s L [_ B] E. split; [exact L|]. split; [unfold ep_ok; rewrite E; apply orb_true_r|].
+  intros d Hd. apply B; [|intros []]. apply ids_c_in_edge. rewrite ids_edge. right. exact Hd.
+Qed.
+
+Definition A2 (n i : nat) (c : tree) : list event :=
+  match tch c with
+  | [] => []
+  | _ :: _ => PushToChild n i (tid c) ++ upd_1bond (tid c) n i ++ fwd2 h false c
+  end.
+Definition Z2 (n i : nat) (c : tree) : list event :=
+  match tch c with
+  | [] => []
+  | _ :: _ => bwd2 h false c ++ PushToParent (tid c) n ++ upd_1bond (tid c) n i
+  end.
+
+Lemma A2_run : forall n done c todo s,
+  subt (Node n (done ++ c :: todo)) T -> Inv T n (done ++ c :: todo) s -> Hoare2 (fwd2 h) c ->
+  exists s1, replay T s (A2 n (length done) c) = Some s1
+             /\ (c_loc s1 = AtNode (tid c) \/ c_loc s1 = AtNode n) /\ Good n (done ++ c :: todo) [tid c] s1
+             /\ FrT n done c todo s s1.
+Proof.
+  intros n done c todo s Ht I HC.
+  assert (Hrec : exists s1, replay T s (PushToChild n (length done) (tid c) ++ upd_1bond (tid c) n (length done) ++ fwd2 h false c) = Some s1
+             /\ c_loc s1 = AtNode (tid c) /\ Good n (done ++ c :: todo) [tid c] s1 /\ FrT n done c todo s s1).
+  { destruct (descend2 n done c todo Ht s I) as [s1 [R1 [L1 [G1 [E1 F1]]]]].
+    pose proof (inv_child n done c todo s1 L1 G1 E1) as I1.
+    destruct (facts n done c todo Ht) as [Sc _].
+    destruct (HC false s1 Sc I1) as [s2 [R2 [I2 F2]]].
+    destruct (rec_keep n done c todo Ht s1 s2 [] (incl_nil_l _) G1 I2 F2) as [G2 F2'].
+    exists s2. rewrite app_assoc, replay_app, R1. split; [exact R2|]. split; [apply I2|]. split; [exact G2|].
+    eapply FrT_trans; eassumption. }
+  unfold A2. destruct (tch c) eqn:Etc.
+  - exists s. split; [reflexivity|]. split; [right; apply I|]. split.
+    + eapply good_weaken; [|apply inv_good, I]. intros x [].
+    + apply Fr2_refl.
+  - destruct Hrec as [s1 [R1 [L1 [G1 F1]]]]. exists s1. split; [exact R1|]. split; [left; exact L1|]. split; assumption.
+Qed.
+
+Lemma tail1_run : forall n done c todo r len i s,
+  subt (Node n (done ++ c :: todo)) T -> Inv T n (done ++ c :: todo) s ->
+  exists s', replay T s (tail1 h r n (map tid (done ++ c :: todo)) len i) = Some s'
+             /\ Inv T n (done ++ c :: todo) s' /\ FrT n done c todo s s'.
+Proof.
+  intros n done c todo r len i s Ht I. unfold tail1. destruct (r && (S i =? len)%nat).
+  - exists s. split; [reflexivity|]. split; [exact I|apply Fr2_refl].
+  - apply (one_site_block n done c todo Ht s (- h) I).
+Qed.
+
+Definition fwd2_blk (r : bool) (n : nat) (kn : list nat) (len i : nat) (c : tree) : list event :=
+  A2 n i c ++ [Evolve2 (tid c) n h; Split2 (tid c) n true] ++ upd_2site (tid c) (map tid (tch c)) n kn
+  ++ tail1 h r n kn len i.
+
+Lemma fwd2_block : forall n done c todo r len s,
+  subt (Node n (done ++ c :: todo)) T -> Inv T n (done ++ c :: todo) s -> Hoare2 (fwd2 h) c ->
+  exists s', replay T s (fwd2_blk r n (map tid (done ++ c :: todo)) len (length done) c) = Some s'
+             /\ Inv T n (done ++ c :: todo) s' /\ FrT n done c todo s s'.
+Proof.
+  intros n done c todo r len s Ht I HC. unfold fwd2_blk.
+  destruct (A2_run n done c todo s Ht I HC) as [s1 [R1 [L1 [G1 F1]]]].
+  destruct (two_site_block n done c todo Ht s1 h true L1 G1) as [s2 [R2 [L2 [G2 [_ F2]]]]].
+  pose proof (good_inv n done c todo s2 L2 G2) as I2.
+  destruct (tail1_run n done c todo r len (length done) s2 Ht I2) as [s3 [R3 [I3 F3]]].
+  exists s3. rewrite replay_app, R1. rewrite app_assoc, replay_app, R2. split; [exact R3|]. split; [exact I3|].
+  eapply FrT_trans; [exact F1|]. eapply FrT_trans; eassumption.
+Qed.
+
+Definition bwd2_blk (r : bool) (n : nat) (kn : list nat) (len i : nat) (c : tree) : list event :=
+  tail1 h r n kn len i
+  ++ [Evolve2 (tid c) n h; Split2 (tid c) n (is_nil (tch c))] ++ upd_2site (tid c) (map tid (tch c)) n kn
+  ++ Z2 n i c.
+
+Lemma Z2_run : forall n done c todo s,
+  subt (Node n (done ++ c :: todo)) T -> Hoare2 (bwd2 h) c ->
+  c_loc s = AtNode (if is_nil (tch c) then n else tid c) -> Good n (done ++ c :: todo) [] s -> c_ep s (tid c) = true ->
+  exists s', replay T s (Z2 n (length done) c) = Some s' /\ Inv T n (done ++ c :: todo) s' /\ FrT n done c todo s s'.
+Proof.
+  intros n done c todo s Ht HC L G E.
+  assert (Hrec : c_loc s = AtNode (tid c) ->
+     exists s', replay T s (bwd2 h false c ++ PushToParent (tid c) n ++ upd_1bond (tid c) n (length done)) = Some s'
+                /\ Inv T n (done ++ c :: todo) s' /\ FrT n done c todo s s').
+  { intros Lc. pose proof (inv_child n done c todo s Lc G E) as I1.
+    destruct (facts n done c todo Ht) as [Sc _].
+    destruct (HC false s Sc I1) as [s2 [R2 [I2 F2]]].
+    destruct (rec_keep n done c todo Ht s s2 [] (incl_nil_l _) G I2 F2) as [G2 F2'].
+    destruct (ascend2 n done c todo Ht s2 (proj1 I2) G2) as [s3 [R3 [I3 F3]]].
+    exists s3. rewrite replay_app, R2. split; [exact R3|]. split; [exact I3|]. eapply FrT_trans; eassumption. }
+  unfold Z2. revert L. destruct (tch c) eqn:Etc; cbn [is_nil]; intros L.
+  - exists s. split; [reflexivity|]. split; [apply good_inv; assumption|apply Fr2_refl].
+  - apply Hrec, L.
+Qed.
+
+Lemma bwd2_block : forall n done c todo r len s,
+  subt (Node n (done ++ c :: todo)) T -> Inv T n (done ++ c :: todo) s -> Hoare2 (bwd2 h) c ->
+  exists s', replay T s (bwd2_blk r n (map tid (done ++ c :: todo)) len (length done) c) = Some s'
+             /\ Inv T n (done ++ c :: todo) s' /\ FrT n done c todo s s'.
+Proof.
+  intros n done c todo r len s Ht I HC. unfold bwd2_blk.
+  destruct (tail1_run n done c todo r len (length done) s Ht I) as [s1 [R1 [I1 F1]]].
+  assert (G1 : Good n (done ++ c :: todo) [tid c] s1).
+  { eapply good_weaken; [|apply inv_good, I1]. intros x []. }
+  destruct (two_site_block n done c todo Ht s1 h (is_nil (tch c)) (or_intror (proj1 I1)) G1) as [s2 [R2 [L2 [G2 [E2 F2]]]]].
+  destruct (Z2_run n done c todo s2 Ht HC L2 G2 E2) as [s3 [R3 [I3 F3]]].
+  exists s3. rewrite replay_app, R1. rewrite app_assoc, replay_app, R2. split; [exact R3|]. split; [exact I3|].
+  eapply FrT_trans; [exact F1|]. eapply FrT_trans; eassumption.
+Qed.
+
+Lemma fwd2_kids_blk : forall r n kn len i c l,
+  fwd2_kids h r n kn len i (c :: l) = fwd2_blk r n kn len i c ++ fwd2_kids h r n kn len (S i) l.
+Proof.
+  intros. cbn [fwd2_kids]. unfold fwd2_blk, A2. repeat rewrite <- app_assoc. cbn [app]. repeat rewrite <- app_assoc. reflexivity.
+Qed.
+
+Lemma bwd2_kids_snoc : forall r n kn len l c i,
+  bwd2_kids h r n kn len i (l ++ [c]) = bwd2_blk r n kn len (i + length l) c ++ bwd2_kids h r n kn len i l.
+Proof.
+  intros r n kn len l c. induction l as [|d l IH]; intros i.
+  - cbn [app bwd2_kids length]. rewrite Nat.add_0_r, app_nil_r. unfold bwd2_blk, Z2. cbn [app]. repeat rewrite <- app_assoc. cbn [app]. repeat rewrite <- app_assoc. reflexivity.
+  - cbn [app bwd2_kids length]. rewrite IH. rewrite <- app_assoc.
+    replace (S i + length l)%nat with (i + S (length l))%nat by lia. reflexivity.
+Qed.
+
+Definition FrN (n : nat) (ch : list tree) := Fr2 (ids (Node n ch)) (ids (Node n ch)) (edge_ids (Node n ch)).
+
+Lemma fwd2_loop : forall r n len todo, Forall (Hoare2 (fwd2 h)) todo ->
+  forall done s, subt (Node n (done ++ todo)) T -> Inv T n (done ++ todo) s ->
+  exists s', replay T s (fwd2_kids h r n (map tid (done ++ todo)) len (length done) todo) = Some s'
+             /\ Inv T n (done ++ todo) s' /\ FrN n (done ++ todo) s s'.
+Proof.
+  intros r n len todo HF. induction HF as [|c todo Hc HF IH]; intros done s Ht I.
+  - exists s. split; [reflexivity|]. split; [exact I|apply Fr2_refl].
+  - destruct (fwd2_block n done c todo r len s Ht I Hc) as [s1 [R1 [I1 F1]]].
+    assert (E : (done ++ [c]) ++ todo = done ++ c :: todo) by (rewrite <- app_assoc; reflexivity).
+    specialize (IH (done ++ [c])). rewrite E in IH. rewrite app_length in IH. cbn [length] in IH.
+    replace (length done + 1)%nat with (S (length done)) in IH by lia.
+    destruct (IH s1 Ht I1) as [s2 [R2 [I2 F2]]].
+    exists s2. rewrite fwd2_kids_blk, replay_app, R1. split; [exact R2|]. split; [exact I2|].
+    eapply Fr2_trans; [exact F1|exact F2].
+Qed.
+
+Lemma bwd2_loop : forall r n len pre, Forall (Hoare2 (bwd2 h)) pre ->
+  forall post s, subt (Node n (pre ++ post)) T -> Inv T n (pre ++ post) s ->
+  exists s', replay T s (bwd2_kids h r n (map tid (pre ++ post)) len 0 pre) = Some s'
+             /\ Inv T n (pre ++ post) s' /\ FrN n (pre ++ post) s s'.
+Proof.
+  intros r n len pre. induction pre as [|c pre IH] using rev_ind; intros HF post s Ht I.
+  - exists s. split; [reflexivity|]. split; [exact I|apply Fr2_refl].
+  - apply Forall_app in HF. destruct HF as [HF Hc]. inversion Hc as [|? ? Hc' _]; subst.
+    rewrite <- app_assoc in *. cbn [app] in *.
+    destruct (bwd2_block n pre c post r len s Ht I Hc') as [s1 [R1 [I1 F1]]].
+    destruct (IH HF (c :: post) s1 Ht I1) as [s2 [R2 [I2 F2]]].
+    exists s2. rewrite bwd2_kids_snoc. cbn [plus]. rewrite replay_app, R1. split; [exact R2|]. split; [exact I2|].
+    eapply Fr2_trans; [exact F1|exact F2].
+Qed.
+
+Lemma fwd2_fresh : forall t, Hoare2 (fwd2 h) t.
+Proof.
+  apply tree_ind'. intros n ch HF r s Ht I. cbn [tid tch] in I.
+  rewrite fwd2_eq.
+  destruct (fwd2_loop r n (length ch) ch HF [] s Ht I) as [s' [R [I' F]]]. cbn [app length] in *.
+  exists s'. split; [exact R|]. split; [exact I'|exact F].
+Qed.
+
+Lemma bwd2_fresh : forall t, Hoare2 (bwd2 h) t.
+Proof.
+  apply tree_ind'. intros n ch HF r s Ht I. cbn [tid tch] in I.
+  rewrite bwd2_eq. rewrite <- (app_nil_r ch) in Ht, I.
+  destruct (bwd2_loop r n (length ch) ch HF [] s Ht I) as [s' [R [I' F]]]. rewrite !app_nil_r in *.
+  exists s'. split; [exact R|]. split; [exact I'|exact F].
+Qed.
+
+Theorem replay_ps2_step : exists s', replay T (cinit T) (ps2_step h T) = Some s' /\ c_loc s' = AtNode (tid T).
+Proof.
+  assert (I0 : Inv T (tid T) (tch T) (cinit T)).
+  { split; [reflexivity|]. split; [unfold ep_ok; rewrite Nat.eqb_refl; reflexivity|]. intros d _. reflexivity. }
+  destruct (fwd2_fresh T true (cinit T) (subt_refl T) I0) as [s1 [R1 [I1 _]]].
+  destruct (bwd2_fresh T true s1 (subt_refl T) I1) as [s2 [R2 [I2 _]]].
+  exists s2. unfold ps2_step. rewrite replay_app, R1. split; [exact R2|apply I2].
+Qed.
+End Fresh2.
+
+Theorem ps2_env_fresh_all : forall h T, NoDup (ids T) -> replay_ok T (ps2_step h T) = true.
+Proof.
+  intros h T ND. destruct (replay_ps2_step T ND h) as [s' [R L]].
+  unfold replay_ok. rewrite R, L. apply loc_eqb_refl.
+Qed.
